@@ -104,7 +104,7 @@ def canonical(root):
                     cells.append(val(c.cell_contents, depth + 1))
                 except ValueError:
                     cells.append(["empty_cell"])
-            return ["function", v.__qualname__, cells]
+            return ["function", v.__qualname__, cells, val(v.__defaults__, depth + 1)]
         if isinstance(v, functools.partial):
             k = containers.get(id(v))
             if k is not None:
